@@ -63,7 +63,7 @@ func zzRead(a *api.ApiContext, obj interface{}) error {
 	case *SnapshotInput:
 		in.Name, in.UserCreated, in.Created = zzPick("in.snap", "", "new", "a"), zzNondetBool("in.user"), zzPick("in.created", "", "t")
 	case *CloneUpdateInput:
-		in.SnapName, in.RevisionCount = zzPick("in.snap", "", "a"), zzPick("in.rev", "", "5", "x")
+		in.SnapName, in.RevisionCount = zzPick("in.snap", "", "a", "new"), zzPick("in.rev", "", "5", "x")
 	case *RemoveDiskInput:
 		in.Name = zzName("in.name")
 	case *ResizeInput:
